@@ -124,6 +124,9 @@ impl InnerLocustDB {
                 let tables = locustdb.tables.read().unwrap();
                 let table = tables.get(&table_name).unwrap();
                 let rows = data.len() as u64;
+                if rows == 0 {
+                    continue;
+                }
                 // TODO: eliminate conversion
                 if !table.columns_names_loaded() {
                     let column_names = locustdb
@@ -325,6 +328,10 @@ impl InnerLocustDB {
             let tables = self.tables.read().unwrap();
             let table = tables.get(&table).unwrap();
             let rows = data.len() as u64;
+            if rows == 0 {
+                // nothing to append (the buffer asserts that every ingestion adds rows)
+                continue;
+            }
             // TODO: eliminate conversion
             let columns = data
                 .into_columns()
